@@ -13,6 +13,14 @@ use super::super::types::IrType;
 use super::super::types::Mutability;
 use super::{EmitError, IrEmitter};
 
+/// Iterate the items of a borrowed set: by value for `Copy` item types (like lists), by reference otherwise.
+fn set_items_iter(iter: &TokenStream, elem_ty: &IrType) -> TokenStream {
+    match elem_ty {
+        IrType::Int | IrType::Float | IrType::Bool => quote! { #iter.iter().copied() },
+        _ => quote! { #iter.iter() },
+    }
+}
+
 /// Iterate the keys of a borrowed dict: by value for `Copy` key types, by reference otherwise (like list items).
 fn dict_keys_iter(iter: &TokenStream, key_ty: &IrType) -> TokenStream {
     match key_ty {
@@ -214,9 +222,8 @@ impl<'a> IrEmitter<'a> {
                                     _ => quote! { #iter.iter_mut() },
                                 }
                             }
-                            IrType::Set(_) => {
-                                quote! { #iter.iter_mut() }
-                            }
+                            // Set items cannot be mutated in place: iterate by value (Copy items) or by reference
+                            IrType::Set(elem_ty) => set_items_iter(&iter, elem_ty),
                             // Iterating a dict yields its keys
                             IrType::Dict(key_ty, _) => dict_keys_iter(&iter, key_ty),
                             _ => quote! { #iter },
@@ -230,9 +237,7 @@ impl<'a> IrEmitter<'a> {
                             }
                             _ => quote! { #iter.iter() },
                         },
-                        IrType::Set(_) => {
-                            quote! { #iter.iter() }
-                        }
+                        IrType::Set(elem_ty) => set_items_iter(&iter, elem_ty),
                         IrType::Dict(key_ty, _) => dict_keys_iter(&iter, key_ty),
                         _ => quote! { #iter },
                     },
@@ -257,9 +262,9 @@ impl<'a> IrEmitter<'a> {
                             quote! { #iter }
                         }
                     }
-                    IrType::Set(_) => {
+                    IrType::Set(elem_ty) => {
                         if let IrExprKind::Var { .. } = &iterable.kind {
-                            quote! { &#iter }
+                            set_items_iter(&iter, elem_ty)
                         } else {
                             quote! { #iter }
                         }
